@@ -24,6 +24,10 @@ class Engine(CallMixin):
         self._check_exception_classes()
         from .proto_model import install as _install_proto
         _install_proto(self)
+        self.family_problems: dict[str, list[str]] = {}
+        for fname, fam in self.reg.adts.items():
+            if hasattr(fam, "check_source"):
+                self.family_problems[fname] = fam.check_source(self.tree)
 
     def _check_exception_classes(self) -> None:
         m = self.tree.modules.get("pyjelly.errors")
@@ -58,6 +62,9 @@ class Engine(CallMixin):
             else:
                 fi = self.tree.get_func(c.key)
             stats["sha"] = fi.sha256()
+            for fname, probs in self.family_problems.items():
+                if probs and self._uses_family(c, fname):
+                    raise Unsupported(f"term class model '{fname}' no longer matches the source: {'; '.join(probs)}")
             self._verify_body(c, fi)
         except Unsupported as ex:
             stats["unsupported"] = str(ex)
@@ -73,6 +80,20 @@ class Engine(CallMixin):
         stats["stmts"] = self.stmts_executed - s0
         stats["gen_s"] = round(time.time() - t0, 3)
         return self.obligations[start:]
+
+    def _uses_family(self, c: Contract, fname: str) -> bool:
+        def walk(s: Any) -> bool:
+            if s is None:
+                return False
+            if s.kind == "adt" and s.arg == fname:
+                return True
+            for a in (s.arg, s.arg2):
+                if hasattr(a, "kind") and walk(a):
+                    return True
+                if isinstance(a, tuple) and any(hasattr(x, "kind") and walk(x) for x in a):
+                    return True
+            return False
+        return any(walk(s) for s in c.params.values()) or walk(c.result)
 
     def _verify_body(self, c: Contract, fi: FuncInfo) -> None:
         st = State()
@@ -243,6 +264,8 @@ class Engine(CallMixin):
                 nv = newobj.get(k, None)
                 if nv is ov:
                     continue
+                if oldobj.kind == "msg" and ov is None and isinstance(nv, Ref):
+                    continue      # reading a sub-message materialises the child object; presence is tracked separately
                 eq = self._frame_eq(st, ov, nv)
                 if eq is True:
                     continue
@@ -365,6 +388,13 @@ class Engine(CallMixin):
             if isinstance(v, Tup):
                 return True
             return isinstance(v, Ref) and st.obj(v).kind == "list"
+        if k == "rows_upto":
+            if isinstance(v, Tup):
+                return len(v.items) <= sort.arg
+            if isinstance(v, Ref) and st.obj(v).kind == "list":
+                items = st.obj(v).get("items")
+                return not any(isinstance(x, Seg) for x in items) and len(items) <= sort.arg
+            return False
         if k == "adt":
             return isinstance(v, ADT) and v.family == sort.arg
         if k == "rec":
